@@ -72,6 +72,9 @@ def annotate(case, impl_lines):
             op = "tok sel " + (",".join(ex) if ex else "-")
         if fs[0] == "closeset" and toks[:1] != ["blocked"]:
             op = op + " pass"      # the restarted applier took the stop signal before the buffered item (Go's select)
+        if fs[0] == "sweepit":
+            first = [t.split(":")[1] for t in toks if t.startswith("rwset:")]
+            op = op + " " + (first[0] if first else "none")
         if fs[0] == "sweeprw":
             # which of the two keys the sweep visited first (Go map order), and whether the rewrite happened
             first = [t.split(":")[1] for t in toks if t.startswith("rwset:")]
@@ -108,7 +111,9 @@ class Gen:
         max_cost = 100
         lo, hi = 21, 60
         ttl_p = 0.25
-        if profile == "roomy":
+        if profile in ("roomy", "roomyshould"):
+            if profile == "roomyshould":
+                should = rng.choice([1, 2])     # room to spare, and a ShouldUpdate that refuses (2) or accepts newer ids (1)
             ignore = rng.random() < 0.5
             max_cost = 10 ** 6
             nkeys = 20
